@@ -174,10 +174,7 @@ func ctxInstances(tier string) []Instance {
 						if pre && cause == context.DeadlineExceeded && !thorough(tier) {
 							continue
 						}
-						bound := 1
-						if thorough(tier) {
-							bound = 2
-						}
+						bound := 2
 						p := ctxParams{kind: kd.kind, nsw: kd.nsw, state: st, buf: buf, cause: cause, pre: pre}
 						out = append(out, Instance{Name: p.name(), Bound: bound, Root: ctxScenario(p)})
 					}
